@@ -328,8 +328,15 @@ func VsymC19() {
 		p := &c19Pushed{subject: vr.Choice("pushSubject", 2), media: []string{c19JWS, c19COSE}[vr.Choice("pushMedia", 2)], blob: []byte{'e', 'n', 'v', byte('0' + i)}}
 		// as notation.SignOCI does, the created annotation is always supplied (oras adds one otherwise)
 		p.ann = map[string]string{"org.opencontainers.image.created": "2023-11-14T22:13:20Z"}
-		if vr.Choice("pushAnnotations", 2) == 1 {
+		nAnn := 2
+		if i == 0 {
+			nAnn = 3 // the empty value is drawn for the first push only
+		}
+		switch vr.Choice("pushAnnotations", nAnn) {
+		case 1:
 			p.ann["k"] = string([]byte{'v', byte('0' + i)})
+		case 2:
+			p.ann["k"] = "" // an annotation whose value is empty is still an annotation
 		}
 		blobDesc, manDesc, err := repo.PushSignature(ctx, p.media, p.blob, subjects[p.subject], p.ann)
 		vr.Assert(err == nil, "pushing a signature succeeds")
@@ -345,7 +352,7 @@ func VsymC19() {
 	hostile := 0
 	if !remote {
 		// what a hostile referrer may look like is asked of the route that reads the manifests itself
-		hostile = vr.Choice("foreignReferrer", 11)
+		hostile = vr.Choice("foreignReferrer", 12)
 	}
 	var hostileDesc ocispec.Descriptor
 	hostileListed, hostileFetchable := false, false
@@ -356,6 +363,10 @@ func VsymC19() {
 		b := blobOf("other-type")
 		other := vr.JObj("mediaType", vr.JStr("application/vnd.example.sbom"), "digest", vr.JStr(string(ocispec.DescriptorEmptyJSON.Digest)), "size", vr.JNum(2))
 		hostileDesc = inject(c19ImageMT, vr.JObj("schemaVersion", vr.JNum(2), "mediaType", vr.JStr(c19ImageMT), "config", other, "layers", vr.JArr(c19Desc(b)), "subject", c19Desc(subjA)), refsA, 0)
+	case 11: // another artifact type by its config, with the notation type written into the artifactType field
+		b := blobOf("other-type-field")
+		other := vr.JObj("mediaType", vr.JStr("application/vnd.example.sbom"), "digest", vr.JStr(string(ocispec.DescriptorEmptyJSON.Digest)), "size", vr.JNum(2))
+		hostileDesc = inject(c19ImageMT, vr.JObj("schemaVersion", vr.JNum(2), "mediaType", vr.JStr(c19ImageMT), "artifactType", vr.JStr(ArtifactTypeNotation), "config", other, "layers", vr.JArr(c19Desc(b)), "subject", c19Desc(subjA)), refsA, 0)
 	case 2: // a legacy artifact manifest of the notation type: a signature in the old layout
 		b := blobOf("legacy")
 		hostileBlob = b
